@@ -252,7 +252,15 @@ def k_add(c):
 
 def k_ser(c):
     addr = addr_of(c['addr'])
-    outs = [TransactionOutput(addr, mk_val(v)) for v in c['values']]
+    seq = bool(c.get('seq'))
+    if seq:
+        # sequence on ONE object: the outputs are first built with the absolute values and serialized (valid), then edited
+        # IN PLACE below the output (amount.coin = .., amount.multi_asset[p][n] = ..) into the scenario's values and
+        # serialized again: whatever validate() remembered must not survive the edit
+        outs = [TransactionOutput(addr, mk_val([abs(v[0]), [[p, [[n, abs(q)] for n, q in names]] for p, names in v[1]]]))
+                for v in c['values']]
+    else:
+        outs = [TransactionOutput(addr, mk_val(v)) for v in c['values']]
     level = c['level']
     inp = TransactionInput(TransactionId(b'\x07' * 32), 0)
 
@@ -268,6 +276,16 @@ def k_ser(c):
                                    collateral_return=outs[0]).to_cbor().hex()
         body = TransactionBody(inputs=[inp], outputs=outs, fee=170000)
         return Transaction(body, TransactionWitnessSet()).to_cbor().hex()
+    if seq:
+        first = guarded(run)
+        for o, v in zip(outs, c['values']):
+            o.amount.coin = v[0]
+            for p, names in v[1]:
+                for n, q in names:
+                    o.amount.multi_asset[ScriptHash(bytes.fromhex(p))][AssetName(bytes.fromhex(n))] = q
+        r = guarded(run)
+        r['first'] = first
+        return r
     r = guarded(run)
     return r
 
